@@ -137,8 +137,8 @@ def second_opinion(u, failure):
         return True, []
     short = target.split("::", 1)[1]
     runs = []
-    for seed in (0, 1, 2):
-        r = verus.run_verus(unit.gen_path, ["--verify-root", "--verify-function", short, "--rlimit", str(10 * unit.rlimit),
+    for seed in (0, 1):
+        r = verus.run_verus(unit.gen_path, ["--verify-root", "--verify-function", short, "--rlimit", str(3 * unit.rlimit),
                                             "--smt-option", "smt.random_seed=%d" % seed, "--multiple-errors", "5"])
         s = verus.summarize(r)
         fl, _ = verus.classify(r, unit)
@@ -329,6 +329,8 @@ def cmd_check(args):
             name = obligation_name(u, f)
             if f.get("fn") in u.get("hints_lost", {}):
                 continue   # undecided, reported above
+            if u.get("count_only") is not None and meta and meta["emitted_as"] not in u["count_only"]:
+                continue   # shared text re-verified here; the owning unit reports it
             if meta and meta.get("kf"):
                 kf_seen.add(meta["kf"])
                 continue
